@@ -82,4 +82,11 @@ def connection (line : String) (first : First) (frames : List Msg) : Conn :=
   | .serve _ => serveFrames ⟨[], 0, 0⟩ frames
   | _ => ⟨[], 0, 0⟩          -- run() returns before the loops start: no frame is ever read
 
+/-- conn_reader.go readLine(max): bytes are taken one at a time until a line feed or `max` bytes;
+`none` = the stream ended first (ReadByte error) -/
+def takeLine : Nat → List UInt8 → Option (List UInt8)
+  | 0, _ => some []
+  | _ + 1, [] => none
+  | n + 1, c :: s => if c = 10 then some [c] else (takeLine n s).map (c :: ·)
+
 end SpecVerif.Mpx.Handshake
